@@ -282,4 +282,107 @@ theorem dftC_zero_real (x : List ℂ) (N : ℕ) (hN : 0 < N)
   intro j _
   rw [map_mul, hx j, Nat.mul_zero, pow_zero, map_one]
 
+/-! ### inversion with the mean and Nyquist bins zeroed (`fas2values`, `itransform`) -/
+
+theorem omega_pow_half (P : ℕ) (hP : 1 ≤ P) : omega (2 * P) ^ P = -1 := by
+  rw [← twC_eq_pow, twC]
+  have hPc : (P : ℂ) ≠ 0 := by exact_mod_cast (by omega : P ≠ 0)
+  have : -(2 * (Real.pi : ℂ) * I * (P : ℂ) / ((2 * P : ℕ) : ℂ)) = -(Real.pi * I) := by
+    push_cast; field_simp
+  rw [this, Complex.exp_neg, Complex.exp_pi_mul_I]
+  norm_num
+
+/-- the inverse DFT of a spectrum entry by entry -/
+theorem idftC_dft_getD (x : List ℂ) (N j : ℕ) (hj : j < N) :
+    (∑ k ∈ range N, (dft twC x N).getD k 0 * starRingEnd ℂ (omega N ^ (j * k))) / N = x.getD j 0 := by
+  have h := idft_dft x N
+  have h1 : (idft twC (dft twC x N) N).getD j 0 = (padTo N x).getD j 0 := by rw [h]
+  rw [idftC_getD _ _ _ hj, padTo_getD, if_pos hj] at h1
+  exact h1
+
+/-- if `a` is the spectrum `X = fft(x, 2P)` with bins `0` and `P` zeroed, then
+`ifft(a)[j] = x_j − X_0/N − (−1)^j·X_P/N` (record minus its mean and Nyquist components) -/
+theorem idft_zeroed (x a : List ℂ) (P : ℕ) (hP : 1 ≤ P)
+    (ha : ∀ k, k < 2 * P → a.getD k 0 = if k = 0 ∨ k = P then 0 else (dft twC x (2 * P)).getD k 0)
+    (j : ℕ) (hj : j < 2 * P) :
+    (idft twC a (2 * P)).getD j 0 =
+      x.getD j 0 - (∑ l ∈ range (2 * P), x.getD l 0) / (2 * P : ℕ)
+        - (-1) ^ j * (∑ l ∈ range (2 * P), (-1) ^ l * x.getD l 0) / (2 * P : ℕ) := by
+  have hN : 2 * P ≠ 0 := by omega
+  have hNc : ((2 * P : ℕ) : ℂ) ≠ 0 := by exact_mod_cast hN
+  set X := dft twC x (2 * P) with hX
+  rw [idftC_getD _ _ _ hj]
+  have hsplit : ∀ k ∈ range (2 * P), a.getD k 0 * starRingEnd ℂ (omega (2 * P) ^ (j * k))
+      = X.getD k 0 * starRingEnd ℂ (omega (2 * P) ^ (j * k))
+        - (if k = 0 then X.getD 0 0 * starRingEnd ℂ (omega (2 * P) ^ (j * 0)) else 0)
+        - (if k = P then X.getD P 0 * starRingEnd ℂ (omega (2 * P) ^ (j * P)) else 0) := by
+    intro k hk
+    rw [ha k (Finset.mem_range.mp hk)]
+    by_cases h0 : k = 0
+    · subst h0
+      have : (0 : ℕ) ≠ P := by omega
+      simp [this]
+    · by_cases hp : k = P
+      · subst hp; simp [h0]
+      · simp [h0, hp]
+  rw [Finset.sum_congr rfl hsplit, Finset.sum_sub_distrib, Finset.sum_sub_distrib,
+    Finset.sum_ite_eq' (range (2 * P)) 0, Finset.sum_ite_eq' (range (2 * P)) P]
+  simp only [Finset.mem_range, Nat.pos_of_ne_zero hN, show P < 2 * P by omega, if_true,
+    Nat.mul_zero, pow_zero, map_one, mul_one]
+  rw [sub_div, sub_div, idftC_dft_getD x (2 * P) j hj]
+  have hX0 : X.getD 0 0 = ∑ l ∈ range (2 * P), x.getD l 0 := by
+    rw [hX, dftC_getD x (2 * P) 0 (by omega)]
+    apply Finset.sum_congr rfl
+    intro l _; simp
+  have hXP : X.getD P 0 = ∑ l ∈ range (2 * P), (-1) ^ l * x.getD l 0 := by
+    rw [hX, dftC_getD x (2 * P) P (by omega)]
+    apply Finset.sum_congr rfl
+    intro l _
+    rw [Nat.mul_comm l P, pow_mul, omega_pow_half P hP, mul_comm]
+  have hc : starRingEnd ℂ (omega (2 * P) ^ (j * P)) = (-1) ^ j := by
+    rw [Nat.mul_comm j P, pow_mul, omega_pow_half P hP, map_pow, map_neg, map_one]
+  rw [hX0, hXP, hc]
+  ring
+
+/-! ### the Hermitian re-assembly as entries -/
+
+theorem assemble_getD (A B : List ℂ) (P k : ℕ) (hP : 1 ≤ P) (hA : A.length = P - 1) :
+    ([0] ++ A ++ [0] ++ B).getD k 0 =
+      if k = 0 then 0 else if k < P then A.getD (k - 1) 0 else if k = P then 0
+      else B.getD (k - P - 1) 0 := by
+  simp only [List.getD_eq_getElem?_getD]
+  by_cases h0 : k = 0
+  · subst h0; simp
+  · by_cases h1 : k < P
+    · rw [if_neg h0, if_pos h1, List.append_assoc, List.append_assoc,
+        List.getElem?_append_right (by simp; omega),
+        List.getElem?_append_left (by simp; omega)]
+      simp
+    · by_cases h2 : k = P
+      · subst h2
+        rw [if_neg h0, if_neg h1, if_pos rfl, List.getElem?_append_left (by simp; omega),
+          List.getElem?_append_right (by simp; omega)]
+        simp only [List.length_append, List.length_cons, List.length_nil, hA]
+        rw [show k - (0 + 1 + (k - 1)) = 0 by omega]
+        simp
+      · rw [if_neg h0, if_neg h1, if_neg h2, List.getElem?_append_right (by simp; omega)]
+        congr 2
+        simp [hA]; omega
+
+theorem tail_getD (u : List ℂ) (i : ℕ) : u.tail.getD i 0 = u.getD (i + 1) 0 := by
+  cases u <;> simp
+
+theorem reverse_conj_tail_getD (u : List ℂ) (P i : ℕ) (hu : u.length = P) (hi : i + 1 < P) :
+    ((u.tail.map (CxLike.conj : ℂ → ℂ)).reverse).getD i 0 = starRingEnd ℂ (u.getD (P - 1 - i) 0) := by
+  have hl : ((u.tail.map (CxLike.conj : ℂ → ℂ)).reverse).length = P - 1 := by simp [hu]
+  rw [← getElem_eq_getD _ _ (by rw [hl]; omega), List.getElem_reverse, List.getElem_map]
+  simp only [cxlike_conj, List.length_map, List.length_tail, hu]
+  congr 1
+  rw [getElem_eq_getD, tail_getD]
+  congr 1; omega
+
+theorem getD_map_div (l : List ℂ) (c : ℂ) (k : ℕ) : (l.map (fun z => z / c)).getD k 0 = l.getD k 0 / c := by
+  simp only [List.getD_eq_getElem?_getD, List.getElem?_map]
+  cases l[k]? <;> simp
+
 end EqsigVerif.Cplx
